@@ -112,6 +112,9 @@ Holds(c, env, q, W) ==
     [] c.k = "pred"  -> PredHolds(c.p, [i \in 1..Len(c.args) |-> Val(c.args[i], env, q, W)])
     [] c.k = "subq"  -> Holds(c.c, env, q, W)
     [] c.k = "hastype" -> IsInst(W, Val(c.e, env, q, W).v, c.T)
+    [] c.k = "chain" -> IF c.op = "and" THEN \A j \in 1..Len(c.cs) : Holds(c.cs[j], env, q, W)
+                        ELSE \E j \in 1..Len(c.cs) : Holds(c.cs[j], env, q, W)
+    [] c.k = "conj"  -> \A j \in 1..Len(c.cs) : Holds(c.cs[j], env, q, W)
     [] c.k = "forall" ->
          LET us == {c.uv[i] : i \in 1..Len(c.uv)}
              as == Assign(q, W, us, 1, env)
